@@ -1,4 +1,5 @@
 pub mod c01;
+pub mod c13;
 pub mod c14;
 pub mod c15;
 pub mod c16;
@@ -40,6 +41,7 @@ fn run_inner(prop: &str, tier: Tier, seed: u64) -> Option<PropReport> {
         "C03" => poolprops::check_c03(tier, seed),
         "C04" => poolprops::check_c04(tier, seed),
         "C12" => poolprops::check_c12(tier, seed),
+        "C13" => c13::check(tier, seed),
         "C14" => c14::check(tier, seed),
         "C15" => c15::check(tier, seed),
         "C16" => c16::check(tier, seed),
@@ -66,6 +68,7 @@ fn run_inner(prop: &str, tier: Tier, seed: u64) -> Option<PropReport> {
 fn replay_engine(engine: &str, case: &Value) -> Option<Result<Result<(), String>, String>> {
     Some(match engine {
         "epoch-arith" => replay_case(&c18::C18, case),
+        "price-protections" => replay_case(&c13::Protections, case),
         "fault-walk" => replay_case(&c20::FaultWalk, case),
         "single-asset-twins" => replay_case(&c14::Twin, case),
         "single-asset-fault-walk" => replay_case(&c14::Faults, case),
